@@ -48,6 +48,9 @@ def run(ctx):
         'an operator whose started time was moved into the past may end in timeout instead (not judged as stale)']
     ctx.mc('operator', 'Controller', 'MC_Controller.cfg', timeout=1200)
     ctx.mc('operator', 'Controller', 'MC_Controller_two.cfg', timeout=2400)
+    ctx.mc('operator', 'Controller', 'MC_Controller_tworegions.cfg', timeout=2400)
+    if not q:
+        ctx.mc('operator', 'Controller', 'MC_Controller_three.cfg', timeout=6000, heap='24g')
     r = ctx.mc('operator', 'Controller', 'MC_Controller_norecheck.cfg', timeout=600)
     ctx.extra['design_variant_without_second_admission_check'] = 'violates %s (as it must)' % r.violated
     if r.violated != 'AdmittedOnlyAtEqualEpoch':
